@@ -181,3 +181,30 @@ def _():
     if got != {14: "AB"}: return f"roll-up depth 3, AB, CR: {got} is shown after the carriage return, a decoder shows AB on row 14"
     got = text_rows(d, 600)
     if got != {13: "AB", 15: "CD"}: return f"roll-up depth 3, AB, CR, CR, CD: {got}, a decoder shows AB on row 13 and CD on row 15"
+
+# ---- defects repaired for another property (C18) in code that M transcribes; kept here as regressions of the reader's behaviour
+@witness("C08", "code-without-caption-raises")
+def _():
+    # paint-on / roll-up style and nothing displayed: no caption is being processed; backspace, tab offset and an extended
+    # character (backspace + character) used to raise AttributeError, a decoder ignores them / writes the character
+    for name, ws in (("RDC BS", [RDC, BS]), ("RDC TO2", [RDC, 0x1722]), ("RDC extended", [RDC, 0x1232]),
+                     ("RU2 EDM BS TO1", [RU2, EDM, BS, 0x1721]), ("RU2 EDM extended", [RU2, EDM, 0x1232])):
+        try:
+            d = read(scc((300, ws), (400, [RDC, pac(15, 0)] + txt("AB"))))
+        except Exception as e:
+            return f"{name}: the reader raises {type(e).__name__}: {e}"
+        got = text_rows(d, 500)
+        if got.get(15) != "AB": return f"{name}: the caption that follows is shown as {got}"
+
+@witness("C08", "painton-begin-negative")
+def _():
+    import ttconv.model as m
+    # paint-on "A BB" (BB carries a span begin), EOC moves it to the non-displayed memory, "CC" is appended there in pop-on
+    # style, a second EOC displays it again at 14 s: nothing of the document may begin before 0 and the row shows from 14 s on
+    d = read(scc((300, [RDC, pac(15, 0)] + txt("A BB")), (360, [RCL, EOC]), (420, txt("CC") + [EOC]), (600, [EDM])))
+    for p in paragraphs(d):
+        for e in [p] + [c for c in p if isinstance(c, m.Span)]:
+            if e.get_begin() is not None and e.get_begin() < 0: return f"{type(e).__name__} begins at {e.get_begin()}"
+    if text_rows(d, 330) != {15: "A BB"}: return f"painted caption at frame 330: {text_rows(d, 330)}"
+    if text_rows(d, 400) != {}: return f"after the first EOC the screen shows {text_rows(d, 400)}"
+    if text_rows(d, 500) != {15: "A BBCC"}: return f"after the second EOC the screen shows {text_rows(d, 500)}"
